@@ -8,5 +8,5 @@ python3 tools/gen_gomod.py harness "$REPO"
 mkdir -p bin evidence replays
 # settle go.mod/go.sum (indirect requirements are added by -mod=mod on first build) and warm the cache
 (cd harness && go build ./lib/...)
-(cd harness && go build ./... 2>/dev/null) || echo "note: not every check package builds yet (each ./check builds its own)"
+(cd harness && go build -tags verif ./... 2>/dev/null) || echo "note: not every check package builds yet (each ./check builds its own)"
 echo "setup ok"
